@@ -327,8 +327,11 @@ def find_lb(DX, DY):
     double_lb: float
         Lower bound of 2*mGH(X, Y).
     """
-    diam_X = np.max(DX)
-    diam_Y = np.max(DY)
+    # (Python integers: the distance matrices have the smallest sufficient
+    # integer dtype, and sums such as i + (d - 1) or max_d + 1 of its
+    # scalars wrap around for diameters near the top of that dtype)
+    diam_X = int(np.max(DX))
+    diam_Y = int(np.max(DY))
     max_diam = max(diam_X, diam_Y)
     # Obtain trivial lower bound of 2*mGH(X, Y) from
     # 1) mGH(X, Y) ≥ 0.5*|diam X - diam Y|;
@@ -499,12 +502,12 @@ def represent_distance_matrix_rows_as_distributions(DX, max_d):
         DX + 1j * np.arange(len(DX))[:, None], return_counts=True)
     # Type is signed integer to allow subtractions.
     optimal_int_type = determine_optimal_int_type(len(DX))
-    DX_rows_distributons = np.zeros((len(DX), max_d + 1), dtype=optimal_int_type)
+    DX_rows_distributons = np.zeros((len(DX), int(max_d) + 1), dtype=optimal_int_type)
     # Construct index pairs for distance frequencies, so that the
     # frequencies of larger distances appear on the left.
     distance_frequencies_index_pairs = \
         (np.imag(unique_distances).astype(optimal_int_type),
-         max_d - np.real(unique_distances).astype(max_d.dtype))
+         int(max_d) - np.real(unique_distances).astype(np.intp))
     # Fill frequency distributions of the rows of DX.
     DX_rows_distributons[distance_frequencies_index_pairs] = distance_frequencies
     # Remove (unit) frequency of distance 0 from each row.
